@@ -68,7 +68,8 @@ Definition open_outcome (eb ec em ech : bool) (e : entry) : opened :=
 (* Part B — file-system machine                                            *)
 (* ====================================================================== *)
 
-(* Files of one recording x in its folder, plus the scratch copies. *)
+(* Files of one recording x in its folder, plus the scratch copies
+   (PChTmp was added last so that the codes of the others did not move). *)
 Inductive path :=
 | PBin        (* x.bin *)
 | PCbin       (* x.cbin *)
@@ -78,14 +79,15 @@ Inductive path :=
 | PBinTmp     (* x.bin_temp   (decompress_to_scratch, scratch_dir=None) *)
 | PSBin       (* scratch/x.bin *)
 | PSBinTmp    (* scratch/x.bin_temp *)
-| PSMeta.     (* scratch/x.meta *)
+| PSMeta      (* scratch/x.meta *)
+| PChTmp.     (* x.ch_tmp     (compress_file: ch_tmp, since 746882f) *)
 
 Definition path_code (p : path) : Z :=
   match p with PBin => 0 | PCbin => 1 | PCbinTmp => 2 | PCh => 3 | PMeta => 4
-             | PBinTmp => 5 | PSBin => 6 | PSBinTmp => 7 | PSMeta => 8 end.
+             | PBinTmp => 5 | PSBin => 6 | PSBinTmp => 7 | PSMeta => 8 | PChTmp => 9 end.
 Definition path_eqb (a b : path) : bool := path_code a =? path_code b.
 Definition all_paths : list path :=
-  [PBin; PCbin; PCbinTmp; PCh; PMeta; PBinTmp; PSBin; PSBinTmp; PSMeta].
+  [PBin; PCbin; PCbinTmp; PCh; PMeta; PBinTmp; PSBin; PSBinTmp; PSMeta; PChTmp].
 
 (* Abstract content: r names a recording (its sample matrix), c a compression
    configuration (chunk size); two streams are interchangeable iff tags agree. *)
@@ -205,19 +207,20 @@ Definition batch_ids (m B i : Z) : list Z :=
 Definition batches (p : path) (m B : Z) : list step :=
   flat_map (fun i => batch_steps p (batch_ids m B i)) (zseq 0 (Z.to_nat (cdiv m B))).
 
-(* Reader.compress_file(keep_original, check_after_compress=chk, n_threads=B):
-     file_tmp = x.cbin_tmp
-     mtscomp.compress(x.bin, out=file_tmp, outmeta=x.ch, ...)
-        Writer.write: with open(out,'wb'): batches ...        (tmp grows)
-                      with open(outmeta,'w'): json.dump       (x.ch under its final name)
+(* Reader.compress_file(keep_original, check_after_compress=chk, n_threads=B)  (tree at 746882f):
+     file_tmp = x.cbin_tmp ; ch_tmp = x.ch_tmp
+     mtscomp.compress(x.bin, out=file_tmp, outmeta=ch_tmp, ...)
+        Writer.write: with open(out,'wb'): batches ...        (x.cbin_tmp grows)
+                      with open(outmeta,'w'): json.dump       (x.ch_tmp)
                       if check_after_compress: check(data, out, outmeta)
+     ch_tmp.rename(x.ch)
      file_tmp.rename(x.cbin)
      if not keep_original: x.bin.unlink()                                      *)
 Definition compress_steps (r c m B : Z) (keep chk : bool) : list step :=
   [SOpenW PCbinTmp] ++ batches PCbinTmp m B ++
-  [SClose PCbinTmp (Comp r c); SOpenW PCh; SDump PCh (Hdr r c)] ++
-  (if chk then [SVerify PCbinTmp PCh PBin r c] else []) ++
-  [SRename PCbinTmp PCbin] ++
+  [SClose PCbinTmp (Comp r c); SOpenW PChTmp; SDump PChTmp (Hdr r c)] ++
+  (if chk then [SVerify PCbinTmp PChTmp PBin r c] else []) ++
+  [SRename PChTmp PCh; SRename PCbinTmp PCbin] ++
   (if keep then [] else [SUnlink PBin]).
 
 (* Reader.decompress_file(keep_original, out=out, overwrite=ow, check_after_decompress=chk):
